@@ -4,9 +4,11 @@ UTLSIdToSpec 16 times per id on the package compiled from the same tree, no hook
 
     gen_parrots() -> (ok, [changed paths relative to /verif], log)      # the lib/gen.py generator interface
 
-Registration: lib/gen.py's GENERATORS is a plain list; `register()` appends gen_parrots to it once. lib/reg/C03.py calls
-register() when the property being checked needs the table (see NEEDS), so that C32's check does not pay for it.
-The integrator may instead add `from gen_parrots import gen_parrots` + `GENERATORS.append(gen_parrots)` to lib/gen.py."""
+Registration: lib/gen.py's GENERATORS is a plain list and regenerate(only=[names]) selects generators by function name
+minus the "gen_" prefix; lib/reg/C03.py has gen=["parrots"] and calls register(), which appends gen_parrots to GENERATORS
+once, and only when the property being checked needs the table (see NEEDS), so that a check with gen=True (C32) does not
+pay for it. The integrator may instead add `from gen_parrots import gen_parrots` + `GENERATORS.append(gen_parrots)` to
+lib/gen.py and delete the register() call from lib/reg/C03.py."""
 import os, sys
 import vcheck
 
@@ -38,5 +40,3 @@ def register():
     wanted = [a for a in sys.argv[1:] if a in NEEDS]
     if wanted and not any(getattr(g, "__name__", "") == "gen_parrots" for g in gen.GENERATORS):
         gen.GENERATORS.append(gen_parrots)
-        # the dicttls tables are not needed by these properties
-        gen.GENERATORS[:] = [g for g in gen.GENERATORS if getattr(g, "__name__", "") != "gen_dicttls"]
